@@ -2,6 +2,7 @@
 package c10
 
 import (
+	"errors"
 	"fmt"
 	"net/http"
 	"net/http/httptest"
@@ -195,9 +196,14 @@ func TestProp(t *testing.T) { rapid.Check(t, prop) }
 // freshly built identical router.
 func buildForwardRouter() *rux.Router {
 	r := rux.New()
-	r.GET("/y/{id}", func(c *rux.Context) { c.SetStatus(201); c.WriteString("y:" + c.Param("id")) })
+	r.OnError = func(c *rux.Context) { c.WriteString(fmt.Sprintf("|OnError(%d)", len(c.Errors))) }
+	r.GET("/y/{id}", func(c *rux.Context) {
+		c.SetStatus(201)
+		c.WriteString(fmt.Sprintf("y:%s data=%d errors=%d aborted=%v", c.Param("id"), len(c.Data()), len(c.Errors), c.IsAborted()))
+	})
 	r.GET("/x", func(c *rux.Context) {
 		c.Set("k1", "from-x")
+		c.AddError(errors.New("recorded by /x before it forwards"))
 		c.Req.URL.Path = "/y/7"
 		c.Router().HandleContext(c) // internal forward
 	})
@@ -230,6 +236,15 @@ func propForwardHistory(t *rapid.T) {
 		buildForwardRouter().ServeHTTP(want, httptest.NewRequest("GET", p, nil))
 		if got.Code != want.Code || got.Body.String() != want.Body.String() {
 			t.Fatalf("history %v: request %d (GET %s) answers %d %q, as first request on a fresh router %d %q", hist, i, p, got.Code, got.Body.String(), want.Code, want.Body.String())
+		}
+		// the dispatch that /x hands its context to is a request like any other: its handlers start from a pristine
+		// context (HandleContext resets it) and answer what a direct request for the target answers
+		if p == "/x" {
+			direct := httptest.NewRecorder()
+			buildForwardRouter().ServeHTTP(direct, httptest.NewRequest("GET", "/y/7", nil))
+			if got.Code != direct.Code || got.Body.String() != direct.Body.String() {
+				t.Fatalf("history %v: request %d (GET /x, forwarded to /y/7 by HandleContext) answers %d %q, a direct request for /y/7 answers %d %q", hist, i, got.Code, got.Body.String(), direct.Code, direct.Body.String())
+			}
 		}
 		if forwarded && strings.HasPrefix(p, "/outer") {
 			ev.Class("nested-request-after-a-forwarded-request")
